@@ -52,7 +52,7 @@
 From Coq Require Import List ZArith Bool String.
 From Verif Require Import Lib.UrlTree Lib.Regex.
 From Verif Require Import C14.Reader C14.Model C14.Proofs C14.Cover C14.Bridge C14.Literal C14.Found C14.Syntax.
-From Verif Require Import C14.Reload C14.ReloadProofs C14.ReloadLeak C14.ReloadReq.
+From Verif Require Import C14.Reload C14.ReloadProofs C14.ReloadLeak C14.ReloadReq C14.Port.
 From Verif Require C03.Trie C03.Model C03.Spec C03.SpecLocal C03.Proofs C13.Model.
 Import ListNotations.
 Open Scope Z_scope.
@@ -813,3 +813,113 @@ Example C14_demo_requirements :
   /\ p_map (r_px (qrun SameExprReq req_history rinit)) = []
   /\ proxy_managed (r_px (qrun SameExprReq req_history rinit)) (bs "GET") (bs "api.demo.com/orders/1017") = false.
 Proof. vm_compute. repeat split; try reflexivity. discriminate. Qed.
+
+(* ======================================================================
+   The request host may name a PORT (Port.v).  txn.host is the Host /
+   x-lunar-host header as sent; the engine's reading of "name:digits" is a
+   parameter (AsSent = the code; HostNameFallback = look the URL up again
+   without the port when the tree finds nothing for it, seeded change C14-12);
+   the registered expressions come from the declared URL in both.
+   ====================================================================== *)
+
+(* the code: every request URL, port or not, declared with a port or not *)
+Theorem C14_no_bypass_flows_any_request_host : forall fs x f,
+  C03.Model.load_ok fs = true ->
+  In f (get_flow_v AsSent (C03.Proofs.tree_of fs) x) ->
+  C03.SpecLocal.kc_at fs f (C03.Proofs.url_of x) = true ->
+  url_ok_exact (C03.Model.f_url f) (C03.Model.t_url x) = true ->
+  In f fs /\
+  (exists e, In e (flow_endpoints f) /\
+             re_search e (subject (C03.Model.t_method x) (C03.Model.t_url x)) = true) /\
+  managed (flows_manage_all fs) (flows_endpoints fs)
+          (C03.Model.t_method x) (C03.Model.t_url x) = true.
+Proof.
+  intros fs x f HL HI HK HU. rewrite get_flow_as_sent in HI.
+  destruct (C14_cover_flows_exact fs x f HL HI HK HU) as [HF HE].
+  split; [exact HF|]. split; [exact HE|].
+  exact (C14_no_bypass_flows_exact fs x f HL HI HK HU).
+Qed.
+Print Assumptions C14_no_bypass_flows_any_request_host.
+
+(* the full statement under the fallback reading: refuted.  Filter
+   api.acme.com/v1/orders [GET], request GET api.acme.com:8443/v1/orders: the tree
+   finds nothing for the URL as sent, the port-less URL selects the flow, the
+   registered expression GET:::api\.acme\.com/v1/orders$ does not find the subject *)
+Definition C14_no_bypass_flows_host_name_fallback_full : Prop := forall fs x f,
+  C03.Model.load_ok fs = true ->
+  In f (get_flow_v HostNameFallback (C03.Proofs.tree_of fs) x) ->
+  C03.SpecLocal.kc_at fs f (C03.Proofs.url_of x) = true ->
+  url_ok_exact (C03.Model.f_url f) (C03.Model.t_url x) = true ->
+  managed (flows_manage_all fs) (flows_endpoints fs)
+          (C03.Model.t_method x) (C03.Model.t_url x) = true.
+Theorem C14_no_bypass_flows_host_name_fallback_full_refuted :
+  ~ C14_no_bypass_flows_host_name_fallback_full.
+Proof.
+  intro H.
+  specialize (H [mf 0 "api.acme.com/v1/orders" ["GET"]] (tx "GET" "api.acme.com:8443/v1/orders")
+                (mf 0 "api.acme.com/v1/orders" ["GET"]) eq_refl).
+  assert (E : managed (flows_manage_all [mf 0 "api.acme.com/v1/orders" ["GET"]])
+                      (flows_endpoints [mf 0 "api.acme.com/v1/orders" ["GET"]])
+                      (C03.Model.t_method (tx "GET" "api.acme.com:8443/v1/orders"))
+                      (C03.Model.t_url (tx "GET" "api.acme.com:8443/v1/orders")) = false)
+    by (vm_compute; reflexivity).
+  rewrite H in E; [discriminate | vm_compute; left; reflexivity
+                   | vm_compute; reflexivity | vm_compute; reflexivity].
+Qed.
+Print Assumptions C14_no_bypass_flows_host_name_fallback_full_refuted.
+
+(* what the fallback reading keeps: the requests whose host names no port
+   (names_port: decidable; the monitor files an unmanaged selection under
+   bypass:host-port when the request host ends in :digits - after the LAST colon,
+   so that a bracketed IPv6 literal with a port counts too - and the same request
+   without the port is managed), and every selection the tree makes for the URL
+   as sent *)
+Theorem C14_no_bypass_flows_holds_outside_host_port : forall fs x f,
+  C03.Model.load_ok fs = true ->
+  names_port (C03.Model.t_url x) = false ->
+  In f (get_flow_v HostNameFallback (C03.Proofs.tree_of fs) x) ->
+  C03.SpecLocal.kc_at fs f (C03.Proofs.url_of x) = true ->
+  url_ok_exact (C03.Model.f_url f) (C03.Model.t_url x) = true ->
+  managed (flows_manage_all fs) (flows_endpoints fs)
+          (C03.Model.t_method x) (C03.Model.t_url x) = true.
+Proof.
+  intros fs x f HL HP HI HK HU. rewrite (get_flow_fallback_no_port _ _ HP) in HI.
+  exact (C14_no_bypass_flows_exact fs x f HL HI HK HU).
+Qed.
+Print Assumptions C14_no_bypass_flows_holds_outside_host_port.
+
+Theorem C14_host_name_fallback_only_adds : forall t x f,
+  In f (C03.Model.get_flow t x) -> In f (get_flow_v HostNameFallback t x).
+Proof. exact get_flow_fallback_found_as_sent. Qed.
+Print Assumptions C14_host_name_fallback_only_adds.
+
+(* non-vacuity, on the modelled code (AsSent): a filter declared WITH a port
+   selects and manages the request that names that port and nothing else; a filter
+   declared without one does not select a request that names a port (so nothing
+   is demanded), except through a wildcard, whose expression is open on the right;
+   strip_port reads name:digits only *)
+Definition demo_ports : list C03.Model.flow :=
+  [ mf 0 "acme.com:8080/{id}" ["GET"]; mf 1 "api.acme.com/v1/orders" ["GET"];
+    mf 2 "{tenant}.acme.org:443/v1" []; mf 3 "files.acme.net/*" ["GET"] ].
+Definition sel (v : host_reading) (m u : string) : list Z :=
+  map C03.Model.f_id (get_flow_v v (C03.Proofs.tree_of demo_ports) (tx m u)).
+Example C14_demo_ports :
+  C03.Model.load_ok demo_ports = true
+  /\ sel AsSent "GET" "acme.com:8080/7" = [0]
+  /\ managed false (flows_endpoints demo_ports) (bs "GET") (bs "acme.com:8080/7") = true
+  /\ sel AsSent "GET" "acme.com/7" = [] /\ sel AsSent "GET" "acme.com:80800/7" = []
+  /\ sel AsSent "HEAD" "eu.acme.org:443/v1" = [2]
+  /\ managed false (flows_endpoints demo_ports) (bs "HEAD") (bs "eu.acme.org:443/v1") = true
+  /\ sel AsSent "GET" "api.acme.com:8443/v1/orders" = []
+  /\ sel HostNameFallback "GET" "api.acme.com:8443/v1/orders" = [1]
+  /\ managed false (flows_endpoints demo_ports) (bs "GET") (bs "api.acme.com:8443/v1/orders") = false
+  /\ sel HostNameFallback "GET" "api.acme.com:http/v1/orders" = []
+  /\ sel HostNameFallback "GET" "acme.com:8080/7" = [0]
+  /\ sel HostNameFallback "GET" "files.acme.net:8443/a/b" = [3]
+  /\ managed false (flows_endpoints demo_ports) (bs "GET") (bs "files.acme.net:8443/a/b") = true
+  /\ names_port (bs "api.acme.com:8443/v1/orders") = true
+  /\ strip_port (bs "acme.com:8080") = Some (bs "acme.com")
+  /\ names_port (bs "api.acme.com/v1/x:80") = false
+  /\ names_port (bs "[::1]:8080/x") = false
+  /\ names_port (bs ":8080/x") = false /\ names_port (bs "acme.com:/x") = false.
+Proof. vm_compute. repeat split; reflexivity. Qed.
